@@ -146,6 +146,15 @@ CHECKS['C10'] = dict(
           'token shape of a plain string; documented ${flag} expansion cases incl. recursive flags are checked with a logical bound on passes and text size.'),
     note='trusted: lexical rules in vf/mon/sqllex.py; ${...} expansion is documented textual parameterisation')
 
+CHECKS['C09'] = dict(
+    category='exploration', design_ref='DESIGN.md 4/C09',
+    technique='runtime monitor: generated programs compiled for all 8 dialects; outcome classification (SQL / diagnostic / internal error) and a dialect-aware lexer + scope checker over every emitted statement, calibrated against the real SQLite engine on every SQLite statement',
+    text=('Each generated program is compiled for sqlite, duckdb, psql, bigquery, trino, presto, clickhouse and databricks and several predicates; '
+          'internal errors are violations; every emitted statement must lex under the engine\'s rules, have balanced brackets, bind every alias.column '
+          'to an enclosing FROM alias, define allocated WITH tables before use and leak no placeholder. The checker must agree with SQLite on every '
+          'SQLite statement (else the run is a harness error, not a finding).'),
+    note='trusted: lexers and scope checker for the seven engines that cannot be executed offline; only text-level well-formedness is claimed')
+
 NOT_YET = 'check not built yet in this session (planned in DESIGN.md section 4); not claimed until it runs clean on the unchanged tree'
 
 
